@@ -11,6 +11,10 @@ CHECKS = {
             "§6 C05",
             "unbounded proof (induction over the block loop) + extraction + differential correspondence",
             "Modelled, not verified: cstruct, array('i') endianness, AlignedStream transcription, CPython bytes/int semantics. WF = positive block size, map covers the disk, entries in {-1,-2} or inside the file."),
+    "C04": ("Lean 4 theorems vhd_read_correct / vhd_backendOK / vhd_stream_correct over a model of vhd.py (footer selection, fixed/dynamic dispatch, BAT, per-block loop); layouts/constants re-extracted each run; model, real code and construction truth compared on generated fixed and dynamic images",
+            "§6 C04",
+            "unbounded proof (induction over the sector loop) + extraction + differential correspondence",
+            "Modelled, not verified: cstruct, struct.Struct('>I'), lru_cache transparency (file immutable), AlignedStream transcription. WF: block size a multiple of 4096, BAT inside the file, allocated blocks inside the file, size within BAT coverage."),
 }
 
 NOT_YET = {
